@@ -893,6 +893,31 @@ def run(ctx, R):
     r146(ctx, R)
     r147(ctx, R)
     r148(ctx, R)
+    # R14.10: the per-value parsers of `required` and `member_of` are called
+    # only by the per-parameter functions that own the "repeated parameter"
+    # gates (1.24 member_of, 1.39 required): a caller that walks the values
+    # itself makes repetition count at every version
+    prog = ctx.prog
+    n10 = 0
+    for single, plural in (
+            ('placement.util:normalize_traits_qs_param',
+             'placement.util:normalize_traits_qs_params'),
+            ('placement.util:normalize_member_of_qs_param',
+             'placement.util:normalize_member_of_qs_params')):
+        sf = prog.func(single)
+        callers = sorted({g.qbase for g in ctx.cg.callers.get(sf, ())})
+        gated = [g_.minv for g_ in ctx.gates.gates_in(prog.func(plural))]
+        n10 += 1
+        R.ob('R14.10', '%s:called-by-plural-only' % single.split(':')[1],
+             plural in callers and all(
+                 c.startswith('placement.util:') for c in callers)
+             and bool(gated),
+             'the value parser is reached only inside placement.util, '
+             'for repeated parameters through %s, which holds the '
+             'repeated-parameter gate' % plural.split(':')[1],
+             'callers %s; gates of the plural %s' % (
+                 [c.split(':')[1] for c in callers], gated), func=sf)
+    R.count('R14.10', n10, 2)
     # R14.9: the pre-1.29 restriction (at most one provider per tree) is
     # applied to the merged candidates, after the groups were combined (the
     # pipeline obligations of R20.3) - applied per group it cannot see two
